@@ -122,6 +122,9 @@ func gen(r *sim.Rng, tier string) *sim.Case {
 	if r.Pct(25) {
 		c.Ops = append(c.Ops, sim.Op{Op: "Enum", S: "IterPair"})
 	}
+	if r.Pct(25) {
+		c.Ops = append(c.Ops, sim.Op{Op: "Enum", S: "Nested", D: r.N(16)})
+	}
 	if r.Pct(20) {
 		c.Params["twin"] = 1 // a second bitmap is used alternately
 	}
@@ -301,6 +304,13 @@ func exec(c *sim.Case, out *sim.WorkerOut) (*sim.Violation, bool) {
 					v = mism("Len", "op %d after %s: Len() = %d, cardinality %d", idx, op.Op, n, len(md))
 				}
 			case "Enum":
+				if op.S == "Nested" {
+					// a read-only enumeration started from inside the callback (or loop body) of
+					// another one over the same bitmap
+					v = nestedEnum(&rb, md, idx, op.D)
+					probes["enumeration_nested_in_an_enumeration"]++
+					return
+				}
 				if op.S == "IterPair" {
 					// two iterators alive at once, advanced alternately (a merge join): over the
 					// twin and the first bitmap if there is a twin, else both over the first
@@ -408,7 +418,64 @@ func iterPair(a, b *setz.RoaringBitmap, ma, mb map[uint32]struct{}, idx int) *si
 	return nil
 }
 
+func nestedEnum(rb *setz.RoaringBitmap, md map[uint32]struct{}, idx, variant int) *sim.Violation {
+	want := sortedSet(md)
+	if len(want) == 0 {
+		return nil
+	}
+	at := []int{0, len(want) / 2, len(want) - 1, 4100 % len(want)}[variant%4]
+	var outer, inner []uint32
+	collectInner := func() {
+		inner = inner[:0]
+		if variant&4 == 0 {
+			rb.Range(func(x uint32) bool { inner = append(inner, x); return len(inner) <= len(want)+8 })
+		} else {
+			for x := range rb.All() {
+				inner = append(inner, x)
+				if len(inner) > len(want)+8 {
+					break
+				}
+			}
+		}
+	}
+	n := 0
+	body := func(x uint32) bool {
+		outer = append(outer, x)
+		if n == at {
+			collectInner()
+		}
+		n++
+		return len(outer) <= len(want)+8
+	}
+	name2 := "Range"
+	if variant&8 == 0 {
+		rb.Range(body)
+	} else {
+		name2 = "All"
+		for x := range rb.All() {
+			if !body(x) {
+				break
+			}
+		}
+	}
+	for k, pr := range [][]uint32{outer, inner} {
+		which := []string{"the outer enumeration", "the enumeration nested in it"}[k]
+		if len(pr) != len(want) {
+			return &sim.Violation{Class: "enumeration_incomplete:" + name2, Site: name + "." + name2, Detail: fmt.Sprintf("op %d, %s nested at element %d of another enumeration: %s produced %d values, the set has %d members", idx, name2, at, which, len(pr), len(want))}
+		}
+		for i := range pr {
+			if pr[i] != want[i] {
+				return &sim.Violation{Class: "model_mismatch:" + name2, Site: name + "." + name2, Detail: fmt.Sprintf("op %d, nested read-only enumerations: %s produced %#x at position %d, expected %#x", idx, which, pr[i], i, want[i])}
+			}
+		}
+	}
+	return nil
+}
+
 func siteOf(op sim.Op) string {
+	if op.Op == "Enum" && op.S == "Nested" {
+		return "Range"
+	}
 	if op.Op == "Enum" && op.S == "IterPair" {
 		return "Iter"
 	}
